@@ -223,7 +223,9 @@ type dupProp struct {
 func (s *SpecValidator) validateDuplicatePropertyNames() *Result {
 	// definition can't declare a property that's already defined by one of its ancestors
 	res := pools.poolOfResults.BorrowResult()
-	for k, sch := range s.spec.Spec().Definitions {
+	definitions := s.spec.Spec().Definitions
+	for _, k := range sortedDefinitionNames(definitions) { // sorted: the outcome must not depend on map iteration order
+		sch := definitions[k]
 		if len(sch.AllOf) == 0 {
 			continue
 		}
@@ -251,6 +253,7 @@ func (s *SpecValidator) validateDuplicatePropertyNames() *Result {
 			for _, v := range dups {
 				pns = append(pns, v.Definition+"."+v.Name)
 			}
+			sort.Strings(pns)
 			res.AddErrors(duplicatePropertiesMsg(k, pns))
 		}
 
@@ -555,12 +558,24 @@ func (s *SpecValidator) validateReferencedDefinitions() *Result {
 	return result
 }
 
+func sortedDefinitionNames(definitions spec.Definitions) []string {
+	names := make([]string, 0, len(definitions))
+	for name := range definitions {
+		names = append(names, name)
+	}
+	sort.Strings(names)
+
+	return names
+}
+
 func (s *SpecValidator) validateRequiredDefinitions() *Result {
 	// Each property listed in the required array must be defined in the properties of the model
 	res := pools.poolOfResults.BorrowResult()
 
+	definitions := s.spec.Spec().Definitions
 DEFINITIONS:
-	for d, schema := range s.spec.Spec().Definitions {
+	for _, d := range sortedDefinitionNames(definitions) { // sorted: which error stops the loop must not depend on map iteration order
+		schema := definitions[d]
 		if schema.Required != nil { // Safeguard
 			for _, pn := range schema.Required {
 				red := s.validateRequiredProperties(pn, d, &schema) //#nosec
